@@ -1884,7 +1884,34 @@ bool GrothVSSHE::CheckGroup
 	if ((mpz_sizeinbase(q, 2L) < l_e) || (mpz_sizeinbase(q, 2L) < l_e_nizk))
 		return false;
 	// the commitment scheme is checked by the SKC class
-	return skc->CheckGroup();
+	if (!skc->CheckGroup())
+		return false;
+	// check the encryption group: same $p$ and $q$ as the commitment scheme
+	if (mpz_cmp(p, com->p) || mpz_cmp(q, com->q))
+		return false;
+	// check, whether $g$ and $h$ are elements of order $q$
+	mpz_t foo;
+	mpz_init(foo);
+	try
+	{
+		mpz_sub_ui(foo, p, 1L); // compute $p-1$
+		if ((mpz_cmp_ui(g, 1L) <= 0) || (mpz_cmp(g, foo) >= 0))
+			throw false;
+		if ((mpz_cmp_ui(h, 0L) <= 0) || (mpz_cmp(h, p) >= 0))
+			throw false;
+		mpz_powm(foo, g, q, p);
+		if (mpz_cmp_ui(foo, 1L))
+			throw false;
+		mpz_powm(foo, h, q, p);
+		if (mpz_cmp_ui(foo, 1L))
+			throw false;
+		throw true;
+	}
+	catch (bool return_value)
+	{
+		mpz_clear(foo);
+		return return_value;
+	}
 }
 
 void GrothVSSHE::PublishGroup
